@@ -1059,6 +1059,13 @@ class Envelope:
         from photon_weave.state.fock import Fock
         from photon_weave.state.polarization import Polarization
 
+        for s in states:
+            if s is not self.polarization and s is not self.fock:
+                raise ValueError(
+                    "Given states have to be members of the envelope, "
+                    "use env.fock and env.polarization"
+                )
+
         # Check that correct operation is applied to the correct system
         if isinstance(operation._operation_type, FockOperationType):
             if not isinstance(states[0], Fock):
